@@ -1051,8 +1051,12 @@ func (c *Context) Exp(d, x *Decimal) (Condition, error) {
 		// This algorithm doesn't work if currentprecision*23 < |x|. Attempt to
 		// increase the working precision if needed as long as it isn't too large. If
 		// it is too large, don't bump the precision, causing an early overflow return.
-		if ncp := f / 23; ncp > float64(cp) && ncp < 1000 {
+		if ncp := f / 23; ncp >= float64(cp) && ncp < 1000 {
 			cp = uint32(math.Ceil(ncp))
+			if float64(cp) == ncp {
+				// |x| can exceed 23*cp by less than a float64 resolves.
+				cp++
+			}
 		}
 	}
 	var tmp2 Decimal
